@@ -10,7 +10,8 @@ CONSTANTS MaxLen, MaxL, MaxTags, FindLens, FindPos
 PadByte == 238
 FillA(i) == (i * 7 + 13) % 251
 FillB(i) == (i * 11 + 5) % 256
-Fill(v, i) == IF v = 0 THEN FillA(i) ELSE FillB(i)
+\* v = 0, 1: two marker fills; v = 2: all zeros; v = 3: all ones (values a decoder might treat specially)
+Fill(v, i) == CASE v = 0 -> FillA(i) [] v = 1 -> FillB(i) [] v = 2 -> 0 [] OTHER -> 255
 Override(b, off, x) == [i \in 1..Len(b) |-> IF i > off /\ i <= off + Len(x) THEN x[i - off] ELSE b[i]]
 RECURSIVE Concat(_)
 Concat(ss) == IF ss = <<>> THEN <<>> ELSE ss[1] \o Concat(Tail(ss))
@@ -106,7 +107,7 @@ HWalkCase(p) ==
 
 \* ---- HFields ----------------------------------------------------------------------------------------------
 Nbr == HTag(6, 1, 8, 0)
-HFieldsParams == { [kind |-> n, v |-> v, pos |-> pos, arch |-> a] : n \in GettableKinds, v \in {0, 1}, pos \in {0, 1}, a \in {0, 4} }
+HFieldsParams == { [kind |-> n, v |-> v, pos |-> pos, arch |-> a] : n \in GettableKinds, v \in {0, 1, 2, 3}, pos \in {0, 1}, a \in {0, 4} }
 HFieldsCase(p) ==
   [mem |-> HdrImage(p.arch, IF p.pos = 0 THEN <<HConformantTag(p.kind, p.v), HTag(0, 0, 8, 0)>>
                             ELSE <<HTag(7, 1, 8, 0), HConformantTag(p.kind, p.v), HTag(0, 0, 8, 0)>>),
@@ -149,12 +150,16 @@ HDstCase(p) ==
 
 \* ---- Find (C13): structural buffers  memx = [len, fill, patch] -------------------------------------------------------------
 \* magic at position pos (or none), stored header length hl, optional second magic
-FindParams == { [len |-> l, pos |-> pos, hl |-> hl, al |-> 0]
-                : l \in FindLens, pos \in FindPos \cup {-1}, hl \in {0, 8, 16, 24, 4096, 1073741824} }
-              \cup { [len |-> 64, pos |-> 8, hl |-> 16, al |-> a] : a \in 1..7 }
+\* (stored lengths also beyond 32768 - the specification's limit for where a header may LIE in an OS image is not a limit
+\*  of this search - and architecture words of any value: the search goes by the magic alone)
+FindParams == { [len |-> l, pos |-> pos, hl |-> hl, al |-> 0, arch |-> <<0, 0, 0, 0>>]
+                : l \in FindLens, pos \in FindPos \cup {-1}, hl \in {0, 8, 16, 24, 4096, 32776, 40000, 1073741824} }
+              \cup { [len |-> 64, pos |-> 8, hl |-> 16, al |-> a, arch |-> <<0, 0, 0, 0>>] : a \in 1..7 }
+              \cup { [len |-> 64, pos |-> pos, hl |-> 16, al |-> 0, arch |-> ar]
+                     : pos \in {0, 4, 8}, ar \in {<<4, 0, 0, 0>>, <<1, 0, 0, 0>>, <<3, 0, 0, 0>>, <<255, 255, 255, 255>>, <<214, 80, 82, 232>>} }
 FindPatches(p) ==
   IF p.pos < 0 THEN <<>>
-  ELSE << [off |-> p.pos, b |-> HdrMagic \o <<0, 0, 0, 0>> \o U32Bytes(p.hl)],
+  ELSE << [off |-> p.pos, b |-> HdrMagic \o p.arch \o U32Bytes(p.hl)],
           [off |-> p.pos + 40, b |-> HdrMagic] >>        \* a second magic later in the buffer must not matter
 FindCase(p) ==
   [memx |-> [len |-> p.len, fill |-> 0, patch |-> FindPatches(p)], mem |-> <<>>, al |-> p.al,
